@@ -1,6 +1,7 @@
 import Capella.Lemmas.Path
 import Capella.Lemmas.Quote
 import Capella.Lemmas.TmpName
+import Capella.Lemmas.Http
 
 /-!
 # C14 — file handlers never reach outside their root
@@ -111,9 +112,72 @@ theorem quote_distrib (a b : List UInt8) :
     quote true (a ++ 47 :: b) = quote true a ++ '/' :: quote true b := by
   simp [quote, quoteByte, isSafe, alwaysSafe]
 
+/-! ## HTTP: the URL template language (`%s %q %d %n %e %%`) -/
+
+section http
+open Capella.Http
+
+/-- **The file name cannot add query or fragment structure, for every template**: whatever URL template
+the handler was given (any mix of the escapes, literal percent signs, none at all), whatever subdir and
+file name — the requested URL has exactly as many `?`, `#` and blanks as the template itself. -/
+theorem http_request_no_new_structure (path subdir name u : Str)
+    (h : request path subdir name = .url u) :
+    u.count '?' = (initTemplate path).count '?' ∧ u.count '#' = (initTemplate path).count '#' ∧
+    u.count ' ' = (initTemplate path).count ' ' := by
+  unfold request expand at h
+  split at h
+  · cases h
+  · split at h
+    · rename_i u' hs
+      cases h
+      refine ⟨?_, ?_, ?_⟩
+      · rw [subst_count _ '?' (Or.inl rfl) _ _ hs, lits_count '?' (Or.inl rfl)]
+      · rw [subst_count _ '#' (Or.inr (Or.inl rfl)) _ _ hs, lits_count '#' (Or.inr (Or.inl rfl))]
+      · rw [subst_count _ ' ' (Or.inr (Or.inr rfl)) _ _ hs, lits_count ' ' (Or.inr (Or.inr rfl))]
+    · cases h
+
+/-- **The request stays under the template's prefix**: the literal text of the template in front of its
+first escape (scheme, host, base path) is a prefix of every requested URL. -/
+theorem http_request_under_prefix (path subdir name u : Str)
+    (h : request path subdir name = .url u) :
+    litPrefix (scan (initTemplate path)) <+: u := by
+  unfold request expand at h
+  split at h
+  · cases h
+  · split at h
+    · rename_i u' hs
+      cases h
+      exact subst_prefix _ _ _ hs
+    · cases h
+
+/-- what goes into `%q` has no `/` (nor `?`, `#`, blank): it is one opaque query value -/
+theorem http_q_value_opaque (parts : List Str) (v : Str) (h : value parts 'q' = some v) :
+    '/' ∉ v ∧ '?' ∉ v ∧ '#' ∉ v :=
+  ⟨value_q_no_slash parts v h,
+   fun hm => (value_chars parts 'q' v h _ hm).1 rfl, fun hm => (value_chars parts 'q' v h _ hm).2.1 rfl⟩
+
+/-- a name that normalises to nothing (`""`, `"."`, `".."`, `"a/.."` with an empty subdir) is refused
+before any request is made, whatever the template -/
+theorem http_empty_name_refused (path : Str) : request path [] ['.', '.'] = .valueError := by
+  have h : Capella.Path.target .http [] ['.', '.'] = [] := by decide
+  simp [request, expand, h]
+
+end http
+
 -- Non-vacuity: concrete inputs on which the statements say something.
 example : target .git ['s','u','b'] ['.','.','/','x'] = [['s','u','b'], ['x']] := by decide
 example : normalize [] [['/','a','/','.','.','/','.','.','/','b','/','/','c']] = [['b'], ['c']] := by decide
 example : quote false [47, 63, 35, 0xC3, 0xA9] = "%2F%3F%23%C3%A9".toList := by decide
+
+/-- the default template, a query template with an encoded slash, and the name/extension escapes -/
+example : Capella.Http.request "https://h/base//".toList "sub".toList "../a b/x?.y#z".toList
+    = .url "https://h/base/sub/a%20b/x%3F.y%23z".toList := by decide
+example : Capella.Http.request "https://h/api?f=%2F%q&x=1#frag".toList [] "d/my model.aird".toList
+    = .url "https://h/api?f=%2Fd%2Fmy%20model.aird&x=1#frag".toList := by decide
+example : Capella.Http.request "https://h/%d/-/%n.%e".toList [] "d.x/a.tar.gz".toList
+    = .url "https://h/d.x/-/a.tar.gz".toList := by decide
+example : Capella.Http.request "https://h/%c3%a9/%s".toList [] "a".toList = .keyError 'c' := by decide
+example : Capella.Http.litPrefix (Capella.Http.scan (Capella.Http.initTemplate "https://h/base".toList))
+    = "https://h/base/".toList := by decide
 
 end Capella.Props.C14
